@@ -94,7 +94,7 @@ impl Monitor for C09 {
         vec![("trainings", tier.pick(6000, 120_000))]
     }
     fn rule(&self) -> &'static str {
-        "case = random layer sequence (dense / convolution / deconvolution / max-pool / feedback block, 0..4 dense layers at varying positions, dense output layer; every third network additionally gets a skip connection and / or a loop connection over one layer) with dropout (rate from {0.1,0.5,0.9,1.0}) on a random non-empty subset of the dropout-capable layers, 4..12 training and 1..70 validation samples, 1..4 epochs, batch 1..5, SGD; with and (every 4th case) without validation data; every 8th case uses tolerance 1 so that training stops early after epoch 2; after all checks a second learn() call is made on the same network and checked the same way. (1) hooked state: every forward pass of a validation sample inside learn() must see all training flags false, every forward pass of a training sample all flags of dropout-capable layers true, flags all false after learn() returns and before/during/after stand-alone validate()/predict(). (2) differential: a twin network without dropout receives the trained weights; the validation loss/accuracy learn() reported for its last epoch must equal validate() on the twin bit-for-bit, predict() must agree on probe inputs, and this is repeated for every prefix e <= E by deterministic re-training (prefix losses must coincide). (3) validate() right after learn() equals the last reported epoch. A case is non-trivial when the fixed-seed mask really changes the training forward pass (checked by comparing a training-mode forward with the twin). Distinct = distinct configuration descriptors."
+        "case = random layer sequence (dense / convolution / deconvolution / max-pool / feedback block, 0..4 dense layers at varying positions, dense output layer; every third network additionally gets one or two skip connections (often chained or sharing a source) and / or a loop connection over one layer) with dropout (rate from {0.1,0.5,0.9,1.0}) on a random non-empty subset of the dropout-capable layers, 4..12 training and 1..70 validation samples, 1..4 epochs, batch 1..5, SGD; with and (every 4th case) without validation data; every 8th case uses tolerance 1 so that training stops early after epoch 2; after all checks a second learn() call is made on the same network and checked the same way. (1) hooked state: every forward pass of a validation sample inside learn() must see all training flags false, every forward pass of a training sample all flags of dropout-capable layers true, flags all false after learn() returns and before/during/after stand-alone validate()/predict(). (2) differential: a twin network without dropout receives the trained weights; the validation loss/accuracy learn() reported for its last epoch must equal validate() on the twin bit-for-bit, predict() must agree on probe inputs, and this is repeated for every prefix e <= E by deterministic re-training (prefix losses must coincide). (3) validate() right after learn() equals the last reported epoch. A case is non-trivial when the fixed-seed mask really changes the training forward pass (checked by comparing a training-mode forward with the twin). Distinct = distinct configuration descriptors."
     }
     fn assumptions(&self) -> Vec<&'static str> {
         vec!["the library's dropout mask is a deterministic function of the tensor size (generator re-seeded with a constant), which makes re-training prefixes reproducible", "bit-for-bit equality is demanded because the statement is an identity (same weights, same code path, dropout off)"]
@@ -113,7 +113,18 @@ impl Monitor for C09 {
                 let loop_c: Vec<usize> = (0..nl.saturating_sub(1)).filter(|b| sh[*b].0 == sh[*b].1 && !sh[*b].2 && plain(&base.layers[*b]) && !matches!(base.layers[*b], LCfg::Pool { .. })).collect();
                 let mut trial = base.clone();
                 if !skip_c.is_empty() && rng.chance(0.7) {
-                    trial.skips = vec![*rng.pick(&skip_c)];
+                    let first = *rng.pick(&skip_c);
+                    trial.skips = vec![first];
+                    // often a second connection, preferably chained to the first (its source is
+                    // the first one's target) or sharing its source
+                    if rng.chance(0.6) {
+                        let chained: Vec<(usize, usize)> = skip_c.iter().cloned().filter(|(a, b)| (*a == first.1 || *a == first.0) && *b != first.1).collect();
+                        let pool = if chained.is_empty() { &skip_c } else { &chained };
+                        let second = *rng.pick(pool);
+                        if second.1 != first.1 {
+                            trial.skips.push(second);
+                        }
+                    }
                     trial.skipacc = *rng.pick(&[Acc::Add, Acc::Mean]);
                 }
                 if !loop_c.is_empty() && rng.chance(0.6) {
